@@ -7,6 +7,7 @@ function that needs anything else is outside the property ("model functions give
 """
 import collections
 import io
+import re
 import warnings
 
 import numpy as np
@@ -72,7 +73,7 @@ def parab_density_antiderivative(x, a=1.5, b=-0.25):
 
 
 def custom_cost(a=1.5, b=0.7):
-    return ((a - 1.2) / 0.2) ** 2 + ((b - 0.5) / 0.3) ** 2 + 0.8 * (a - 1.2) * (b - 0.5) / 0.06 + 0.01 * (a * b) ** 2
+    return ((a - 1.2) / 0.05) ** 2 + ((b - 0.5) / 0.04) ** 2 + 0.8 * (a - 1.2) * (b - 0.5) / 0.002 + 0.01 * (a * b) ** 2
 
 
 def user_cost_xy(y_data, y_model):
@@ -100,8 +101,20 @@ FUNCS["sympy-exp"] = "sexp: x A0=1.4 k=0.25 -> A0 * exp(k * x)"
 N = 8  # data points of xy / indexed objects (fitted problems need >= 8 points, DESIGN 3.4)
 HIST_EDGES = [0.0, 1.0, 2.0, 3.5, 4.5, 6.0]
 HIST_ENTRIES = [0.3, 0.8, 1.1, 1.4, 1.7, 1.9, 2.2, 2.4, 2.5, 2.7, 2.9, 3.0, 3.2, 3.3, 3.6, 3.8, 4.1, 4.4, 4.6, 4.9, 5.3, 5.8, 2.1, 2.8, 3.1, 1.5, 3.9, 0.6, 4.2, 2.6]
+
+
+
+def _entries(n=150, mu=3.0, sigma=1.25):
+    from scipy.special import ndtri
+
+    q = mu + sigma * ndtri((np.arange(n) + 0.5) / n)
+    q = q + 0.11 * np.sin(1.7 * np.arange(n))
+    return [float(round(x, 6)) for x in q if 0.0 <= x < 6.0]
+
+
+HIST_ENTRIES = _entries()
 HIST_OUTSIDE = [-0.7, -0.2, 6.4]  # two underflow entries, one overflow entry (underflow != overflow)
-HIST_HEIGHTS = [3.0, 6.0, 11.0, 5.0, 4.0]
+HIST_HEIGHTS = [15.0, 31.0, 56.0, 27.0, 19.0]
 UNB_DATA = HIST_ENTRIES
 
 # extra source kinds (not in ref.KINDS): near-constant and tiny-magnitude vectors
@@ -194,7 +207,7 @@ def _data(dtype, v, variant="base", poisson=False, model=None):
     well-posed, DESIGN 3.4), for everything else the (roughly linear) base data"""
     val = V(v, N)
     if dtype == "xy":
-        y = val.y
+        y = val.y + 2.0  # intercept well away from zero: relative parameter uncertainties stay below 15 %
         if model in ("expo", "sympy-exp"):
             y = 1.3 * np.exp(0.27 * val.x) * (1.0 + 0.05 * _WIGGLE) * (1.0 + 0.15 * v)
         if poisson:
@@ -203,7 +216,7 @@ def _data(dtype, v, variant="base", poisson=False, model=None):
             return val.x, y * 1e-9
         return val.x, y
     if dtype == "indexed":
-        y = val.yint if poisson else val.y
+        y = (val.yint + 9.0) if poisson else (val.y + 3.0)
         if variant == "nano":
             return None, y * 1e-9
         return None, y
@@ -742,6 +755,37 @@ def _report(fit):
 
 # ---------------------------------------------------------------------------------------
 # comparison
+
+_NUM = re.compile(r"[-+]?(?:\d+\.\d*|\.\d+|\d+)(?:[eE][-+]?\d+)?")
+
+
+def _ulp_of_print(tok):
+    """one unit of the last printed digit of a decimal literal"""
+    mant, _, exp = tok.lower().partition("e")
+    digits = len(mant.split(".")[1]) if "." in mant else 0
+    return 10.0 ** (-digits + (int(exp) if exp else 0))
+
+
+def text_equal_mod_ties(a, b):
+    """two formatted texts are equal when their non-numeric parts agree (runs of blanks collapsed) and every printed
+    number agrees within one unit of its last printed digit (a value exactly on a rounding tie may be printed either
+    way after a change in the last bit, DESIGN 6.5)"""
+    if a == b:
+        return True
+    if not isinstance(a, str) or not isinstance(b, str):
+        return False
+    na, nb = _NUM.findall(a), _NUM.findall(b)
+    ta = re.sub(r"[ =-]+", " ", _NUM.sub("#", a))
+    tb = re.sub(r"[ =-]+", " ", _NUM.sub("#", b))
+    if ta != tb or len(na) != len(nb):
+        return False
+    for x, y in zip(na, nb):
+        if x == y:
+            continue
+        if abs(float(x) - float(y)) > 1.0000001 * max(_ulp_of_print(x), _ulp_of_print(y)):
+            return False
+    return True
+
 
 
 def diff(a, b, rtol, path=""):
